@@ -424,14 +424,17 @@ example : validateSane envEx .segwitv0 (.orI (.check (.pkK 0)) (.check (.pkK 1))
   decide +kernel
 
 
-/-- KNOWN FINDING, kernel-checked on the real output: for `thresh(2,pk(0),pk(1),older(10))` the
-library's `compile::<Legacy>()` returns `thresh(2,pk(0),s:pk(1),snl:older(10))`
-(= `…,s:n:or_i(0,older(10)))`); `Legacy::SANE` forbids `or_i`, so the mirror of
-`validate(&Legacy::SANE)` refuses the compiler's own output (the same tree is sane in Segwitv0) -/
+/-- REGRESSION WITNESS (defect F13, fixed in /repo by "fix: compiler does not produce or_i / d:
+fragments in contexts that forbid them"): before the fix `compile::<Legacy>()` returned, for
+`thresh(2,pk(0),pk(1),older(10))`, the tree `thresh(2,pk(0),s:pk(1),snl:older(10))`
+(= `…,s:n:or_i(0,older(10)))`).  `Legacy::SANE` forbids `or_i`, so the checker refuses exactly
+that output — for this one reason only (`validateRest` accepts it, and the same tree is sane in
+Segwitv0): should the compiler ever emit it again, `J compiled` fails with
+`bad:sane(d-or-or_i-not-allowed-in-this-context)`. -/
 def legacyOut : Ms :=
   .thresh 2 (.cons (.check (.pkK 0)) (.cons (.swap (.check (.pkK 1)))
     (.cons (.swap (.zeroNotEqual (.orI .fls (.older 10)))) .nil)))
-theorem legacy_compiler_output_not_sane : validateSane envEx .legacy legacyOut = false := by
+theorem pre_fix_legacy_output_rejected : validateSane envEx .legacy legacyOut = false := by
   decide +kernel
 example : validateSane envEx .segwitv0 legacyOut = true := by decide +kernel
 example : validateRest envEx .legacy legacyOut = true := by decide +kernel
